@@ -7,6 +7,7 @@ Seams owned here (all harness-side, no repo change besides the guarded MessageFI
 """
 import linecache
 import os
+import re
 import sys
 import zlib
 
@@ -249,11 +250,28 @@ def install_scheduler(s):
 # outcome canonicalisation
 
 
+_VAR_TOKEN = re.compile(r"(?<![A-Za-z0-9_'])(_[A-Za-z0-9_]*|[A-Z][A-Za-z0-9_]*)(?![A-Za-z0-9_'(])")
+
+
 def canon_term(t, sort_lists):
-    """Canonical string of a result term; with sort_lists the elements of every list are sorted."""
-    if not sort_lists or not isinstance(t, Term):
+    """Canonical string of a result term; with sort_lists the elements of every list are sorted.
+    Variables of non-ground result terms (e.g. the placeholder of a failed non-ground query) are
+    renamed by first occurrence, so that their names do not depend on how the query was built."""
+    if not isinstance(t, Term):
         return str(t)
-    return _canon(t)
+    s = _canon(t) if sort_lists else str(t)
+    try:
+        ground = t.is_ground()
+    except Exception:
+        ground = True
+    if not ground and "'" not in s and '"' not in s:
+        names = {}
+
+        def ren(m):
+            return names.setdefault(m.group(1), "V%d" % (len(names) + 1))
+
+        s = _VAR_TOKEN.sub(ren, s)
+    return s
 
 
 def _canon(t):
